@@ -201,6 +201,30 @@ fn k_rank_cmp_antisym() {
     std::mem::forget(b);
 }
 
+/// The comparator looks at class and number only: two auto-correct items tie (the stable sort then keeps the typed word's own entry
+/// in front of suffix-built ones) and two emoji tie (table order is kept).
+#[kani::proof]
+fn k_rank_cmp_ignores_text() {
+    let n1: u8 = kani::any();
+    let n2: u8 = kani::any();
+    let a = Rank::First(String::from("b"));
+    let b = Rank::First(String::from("a"));
+    assert!(a.cmp(&b) == Ordering::Equal, "two First items tie whatever their text");
+    let e1 = Rank::Emoji(String::from("b"), n1);
+    let e2 = Rank::Emoji(String::from("a"), n2);
+    assert!(e1.cmp(&e2) == Ordering::Equal, "two emoji tie (table order is kept by the stable sort)");
+    let o1 = Rank::Other(String::from("b"), n1);
+    let o2 = Rank::Other(String::from("a"), n1);
+    assert!(o1.cmp(&o2) == Ordering::Equal, "equal distances tie whatever the text");
+    kani::cover!(n1 > n2, "reachable");
+    std::mem::forget(a);
+    std::mem::forget(b);
+    std::mem::forget(e1);
+    std::mem::forget(e2);
+    std::mem::forget(o1);
+    std::mem::forget(o2);
+}
+
 macro_rules! sort_harness {
     ($name:ident, $n:expr, $stable:expr) => {
         #[kani::proof]
